@@ -184,7 +184,8 @@ func randomBuild(pattern string, build func(string) (Cgroup, error)) (Cgroup, er
 	for {
 		name := prefix + nextRandom() + suffix
 		cg, err := build(name)
-		if err == nil {
+		// a build that succeeds on a group that already existed is a name collision, not a new group
+		if err == nil && !cg.Existing() {
 			return cg, nil
 		}
 		if errors.Is(err, os.ErrExist) || (cg != nil && cg.Existing()) {
